@@ -10,7 +10,11 @@ import vlib
 
 PRED_PROP = {"C04": ("C04.",), "C05": ("C05.",), "C06": ("C06.",),
              # C16, cache level: "no cache write is forgotten by the eviction and expiration policies" when the write buffer overflows
-             "C16": ("C05.", "C04.bound", "C06.conservation", "C06.abnormal_end")}
+             "C16": ("C05.", "C04.bound", "C06.conservation", "C06.abnormal_end"),
+             # C17, cache level: concurrent consumers of the read buffer (recorded reads stuck or delivered twice)
+             "C17": ("C17.", "C05.abnormal_end"),
+             # C07, concurrent form: no Overflow removal in a cache that never exceeds its maximum
+             "C07": ("C07.", "C05.abnormal_end")}
 
 
 def wr_cfg(writers, keys, nops, weights, maxw, nodes, transplant=False):
@@ -31,7 +35,7 @@ def run_mc(work, tag, text, workers, timeout=3000):
 
 def scenarios(prop, quick, seed):
     n = 240 if quick else 2400
-    if prop == "C16":
+    if prop in ("C16", "C17", "C07"):
         n = 48 if quick else 480
     out = []
     for j in range(n):
@@ -42,6 +46,11 @@ def scenarios(prop, quick, seed):
                 "smallbuf": 1 if (j // 5) % (2 if prop == "C04" else 4) == 1 else 0}
         if prop == "C16":
             sc = dict(base, size=["count", "weight", "count"][j % 3], max=2 + j % 4, wt=[1, 0, 2, 1, 3], smallbuf=1, stale=0, invall=0)
+        elif prop == "C17":
+            sc = dict(base, size=["count", "none", "weight"][j % 3], max=3 + j % 4, wt=[1, 0, 2, 1, 3], smallbuf=0, stale=0, reads=1, expiry=1,
+                      invall=2 + j % 3, policy="free", writers=3 + j % 2, ops=12 + j % 6, keys=2 + j % 3)
+        elif prop == "C07":
+            sc = dict(base, size="count", keys=1 + j % 3, max=3 + j % 4, smallbuf=0, stale=0, invall=[0, 1][j % 2], writers=2 + j % 3, ops=4 + j % 5)
         elif prop == "C04":
             kind = j % 3
             if kind == 0:
@@ -86,7 +95,7 @@ def run(prop, tier, replay=None, collect_only=False):
             inst = [("k1w2", wr_cfg(2, 1, 2, [1], 1, 4)), ("k2w2wt", wr_cfg(2, 2, 2, [0, 1, 3], 2, 4))]
             if not quick:
                 inst += [("k1w3", wr_cfg(3, 1, 2, [0, 1], 1, 6)), ("k2w2n3", wr_cfg(2, 2, 3, [1, 2], 2, 6))]
-            if prop == "C16":
+            if prop in ("C16", "C17", "C07"):
                 inst = []
             mc_futs = [ex.submit(run_mc, work, tag, txt, 4 if quick else 8) for tag, txt in inst]
             scen = scenarios(prop, quick, seed)
